@@ -84,3 +84,54 @@ func HarnessC13ScenarioRequests() {
 	vReach("end")
 	_ = time.Millisecond
 }
+
+// ---- C13: scenario weights. Any weights (negative ones are malformed) through decodeAmmo:
+// rejected or spread, never a panic (make with a negative capacity).
+func HarnessC13ScenarioWeights() {
+	n := int(vConcretize(vNondetInt("n", 1, 3)))
+	hi := int64(6)
+	if vThorough() {
+		hi = 12
+	}
+	cfg := &config.AmmoConfig{Requests: []config.RequestConfig{{Name: "a", Method: "GET", URI: "/a"}}}
+	neg := false
+	ws := make([]int64, n)
+	for i := 0; i < n; i++ {
+		ws[i] = vConcretize(vNondetInt("w", -hi, hi)) // case split: Euclid's loop runs on concrete weights
+		if ws[i] < 0 {
+			neg = true
+		}
+		cfg.Scenarios = append(cfg.Scenarios, config.ScenarioConfig{Name: string(rune('p' + i)), Weight: ws[i], Requests: []string{"a"}})
+	}
+	res, err := decodeAmmo(cfg, nil) // implicit: never panics
+	if neg {
+		vCheck("M5.negative.weight.rejected", err != nil)
+		vReach("neg")
+		return
+	}
+	vCheck("M5.valid.weights.accepted", err == nil)
+	if err != nil {
+		return
+	}
+	// every scenario is delivered at least once, in proportion to its weight (0 counts as 1)
+	cnt := map[string]int64{}
+	for _, s := range res {
+		cnt[s.Name]++
+	}
+	for i := 0; i < n; i++ {
+		w := ws[i]
+		if w == 0 || n == 1 {
+			w = 1
+		}
+		vCheck("M5.every.scenario.present", cnt[string(rune('p'+i))] >= 1)
+		for j := 0; j < n; j++ {
+			wj := ws[j]
+			if wj == 0 || n == 1 {
+				wj = 1
+			}
+			vCheck("M5.proportional", cnt[string(rune('p'+i))]*wj == cnt[string(rune('p'+j))]*w)
+		}
+	}
+	vObserve("len", int64(len(res)))
+	vReach("end")
+}
